@@ -290,7 +290,7 @@ pub fn run(ctx: &Ctx) -> Outcome {
             // classified by its text exactly like an unhinted one: the hint ends a number, it does not change what
             // breaks a sequence)
             let opts = if model {
-                StreamOpts { ws_tokens: i % 2 == 0, nan_permille: if i % 9 < 3 { 120 } else { 0 }, sep_permille: if i % 9 == 1 { 80 } else { 0 }, ..StreamOpts::plain(12) }
+                StreamOpts { ws_tokens: i % 2 == 0, random_case: i % 4 == 1, nan_permille: if i % 9 < 3 { 120 } else { 0 }, sep_permille: if i % 9 == 1 { 80 } else { 0 }, ..StreamOpts::plain(12) }
             } else {
                 StreamOpts::hinted(12)
             };
@@ -319,7 +319,7 @@ pub fn run(ctx: &Ctx) -> Outcome {
     if !ctx.quick() {
         super::legs::fuzz_leg(ctx, &mut rep, 45);
     }
-    let rule = "table/lookup agreement: every word of each language's linking-word table (hook H2) is answered linking and does not break a sequence of two digits; cases = every stream of 1..4 (thorough 1..5) tokens over a 16-word alphabet per language (counter exhaustive_small_alphabet_streams) and grammar-noise token streams, each scanned at 9 base thresholds (0,1,3,5,10,25,inf,NaN,-1) plus value and value +/- 0.5 of its first numbers; universal laws on every stream: lazy and batch search agree at every threshold, F(t) subset of F(0) as exact tuples, monotonicity over all ordered threshold pairs, t<=0 or NaN rewrites everything, every non-small number is reported; policy model (lower-case, hint-free streams): a small number is reported iff a neighbour of the same kind is linked through a soft gap; gaps are soft (whitespace, hyphen, letter-free tokens other than a lone period, linking words, the conjunction) / hard (a lone period, a word that is not linking) / ambiguous (the separator word, a conjunction flagged not-a-number that the language does not list as linking: not judged); non-trivial = stream with at least one recognised number";
+    let rule = "table/lookup agreement: every word of each language's linking-word table (hook H2) is answered linking and does not break a sequence of two digits; cases = every stream of 1..4 (thorough 1..5) tokens over a 16-word alphabet per language (counter exhaustive_small_alphabet_streams) and grammar-noise token streams, each scanned at 9 base thresholds (0,1,3,5,10,25,inf,NaN,-1) plus value and value +/- 0.5 of its first numbers; universal laws on every stream: lazy and batch search agree at every threshold, F(t) subset of F(0) as exact tuples, monotonicity over all ordered threshold pairs, t<=0 or NaN rewrites everything, every non-small number is reported; policy model (a quarter of the streams in random case; words are classified by their lower-case form): a small number is reported iff a neighbour of the same kind is linked through a soft gap; gaps are soft (whitespace, hyphen, letter-free tokens other than a lone period, linking words, the conjunction) / hard (a lone period, a word that is not linking) / ambiguous (the separator word, a conjunction flagged not-a-number that the language does not list as linking: not judged); non-trivial = stream with at least one recognised number";
     finish(ctx, rep, rule, &["'is this a linking word / a separator word' is asked of the running library through the public trait methods", "gaps that contain the decimal-separator word are not judged (DESIGN.md C09); letter-free tokens other than a lone period are transparent, as the property's anchor states"], vec![])
 }
 
